@@ -310,8 +310,38 @@ def c05_client(ck):
                 n += 1
                 lines.append("%s client %s | %s" % (cid, hx(inbox), ops))
                 meta[cid] = (k, fin, fops, fframes)
+    # error replies that carry continues:true in the middle of a stream (a method may report one failed item and go on):
+    # the iteration yields them as errors and keeps going to the final reply
+    mid = {}
+    for pos in (0, 1, 2):
+        for fin in finals[:2]:
+            stream = [{"continues": True, "parameters": {"i": i}} for i in range(3)]
+            stream.insert(pos, {"continues": True, "error": "org.example.Skipped", "parameters": {"at": pos}})
+            inbox = b"".join(fr(x) for x in stream + [fin] + [{"parameters": {"next": 1}}])
+            cid = "e%d" % n
+            n += 1
+            lines.append("%s client %s | new new new more:0 %s call:1" % (cid, hx(inbox), " ".join(["next:0"] * 7)))
+            mid[cid] = (pos, stream, fin)
     impl, model = run_client_cases(ck, lines, model_ok)
     nd = 0
+    for cid, (pos, stream, fin) in mid.items():
+        ck.case("miderr|%d|%s" % (pos, json.dumps(fin)))
+        ck.count("client_iteration_mid_stream_error")
+        a = impl[cid]
+        if "outs=" not in a:
+            ck.failures.append({"what": "client iteration: no result", "result": a[:200]})
+            continue
+        if cid in model and not same_client(a, model[cid]):
+            nd += 1
+            if nd <= 3:
+                ck.tie_broken.append("client model/implementation disagree on a stream with a continuing error reply: impl=%s model=%s" % (a[:300], model[cid][:300]))
+        outs = [parse_out(x) for x in fields(a)["outs"].split(";")]
+        want = [loads_tuple(expected_outcome(y)) for y in stream + [fin]] + [("none",), ("none",)]
+        if outs[0] != ("unit",) or outs[1:8] != want:
+            ck.failures.append({"what": "iterating a more call does not yield every continues reply in order (an error reply that carries continues:true "
+                                        "does not end the stream), then the final reply, then end", "stream": stream, "final": fin, "got": [list(x) for x in outs[:9]]})
+        elif outs[8:] != [("ok", {"next": 1})]:
+            ck.failures.append({"what": "connection not free for the next call after the iteration ended", "stream": stream, "got": [list(x) for x in outs[8:]]})
     for cid, (k, fin, fops, fframes) in meta.items():
         ck.case("iter|%d|%s|%s" % (k, json.dumps(fin), fops), nontrivial=True,
                 sample={"continues_replies": k, "final": fin, "then": fops} if k == 2 and len(ck.samples) < 5 else None)
